@@ -121,9 +121,88 @@ theorem reject_explicit {st : State} {fv : Reqs} (ident : Ident) (l : Int) (s : 
         refine ⟨decide_eq_true ?_, ?_⟩ <;> omega
       simp [badLength, h0, h1, this]
 
+/-! ### keys and masks
+
+`ValuesFit st.entries fv`: every present field of the instance `fv` that has a value and a length holds a
+value below `2^length`.  `__call__` checks this for every field whose length is known (`call_rejects_wide`);
+for lengths fixed later it follows from `value ≤ max_value` and `wide_enough` (`valuesFit_of_le_max`). -/
+
+theorem valuesFit_of_le_max {es : List Entry} {fv : Reqs} (hw : SpecWide es)
+    (hle : ∀ e ∈ enabledFields es fv, ∀ x, fv.lookup e.ident = some x → x ≤ e.field.maxValue) : ValuesFit es fv := by
+  intro e he x l hx hl
+  have h1 := hle e he x hx
+  have h2 := hw e (List.mem_filter.mp he).1 l hl
+  omega
+
+/-- **readback.** For every present field of an instance, the value is read back from `get_value()` at the
+position and length that `get_location_and_length` reports. -/
+theorem readback {L : Nat} {st : State} (h : Reachable L st) {fv : Reqs} (hfit : ValuesFit st.entries fv) {key : Nat}
+    (hk : getValue st.entries fv none none = .ok key) {e : Entry} (he : e ∈ enabledFields st.entries fv)
+    {x s l : Nat} (hx : fv.lookup e.ident = some x) (hloc : getLocationAndLength st.entries fv e.ident = .ok (s, l)) :
+    ReadBack key s l x := by
+  have hi := (reachable_inv h).1
+  -- the field that get_location_and_length looks up is e
+  unfold getLocationAndLength at hloc
+  cases hg : getField st.entries e.ident fv with
+  | none => simp [hg] at hloc
+  | some e' =>
+    obtain ⟨h1, h2, h3⟩ := getField_some hg
+    have he0 := List.mem_filter.mp he
+    have := eq_of_enabled_same_ident hi.unique h1 he0.1 h2 h3 he0.2
+    subst this
+    simp only [hg] at hloc
+    cases hl : e'.field.length <;> cases hs : e'.field.startAt <;> simp [hl, hs] at hloc
+    obtain ⟨rfl, rfl⟩ := hloc
+    exact readback_lemma hi.disjoint hfit hk he hx hl hs
+
+/-- **mask_exact.** `get_mask()` has exactly the bits of the present fields ... -/
+theorem mask_exact {es : List Entry} {fv : Reqs} {m : Nat} (h : getMask es fv none none = .ok m) (j : Nat) :
+    m.testBit j = true ↔ ∃ e ∈ enabledFields es fv, ∃ l s,
+      e.field.length = some l ∧ e.field.startAt = some s ∧ s ≤ j ∧ j < s + l := by
+  rw [getMask_all h, testBit_unionBits]
+
+/-- ... and `get_mask(tag=t)` exactly the bits of the present fields carrying the tag. -/
+theorem mask_exact_tag {es : List Entry} {fv : Reqs} {t : String} {m : Nat}
+    (h : getMask es fv (some t) none = .ok m) (j : Nat) :
+    m.testBit j = true ↔ ∃ e ∈ enabledFields es fv, t ∈ e.field.tags ∧ ∃ l s,
+      e.field.length = some l ∧ e.field.startAt = some s ∧ s ≤ j ∧ j < s + l := by
+  rw [getMask_tag h, testBit_unionBits]
+  simp only [List.mem_filter, List.contains_iff_mem]
+  constructor
+  · rintro ⟨e, ⟨he, ht⟩, r⟩; exact ⟨e, he, ht, r⟩
+  · rintro ⟨e, he, ht, r⟩; exact ⟨e, ⟨he, ht⟩, r⟩
+
+/-- **orthogonal.** Two instances that give different values to a field present in both produce key/mask pairs
+that do not match each other (neither key matches the other pair, and `key & mask' ≠ key' & mask`). -/
+theorem orthogonal {L : Nat} {st : State} (h : Reachable L st) {fv fv' : Reqs} {k m k' m' : Nat}
+    (hfit : ValuesFit st.entries fv) (hfit' : ValuesFit st.entries fv')
+    (hk : getValue st.entries fv none none = .ok k) (hm : getMask st.entries fv none none = .ok m)
+    (hk' : getValue st.entries fv' none none = .ok k') (hm' : getMask st.entries fv' none none = .ok m')
+    {e : Entry} (he : e ∈ enabledFields st.entries fv) (he' : e ∈ enabledFields st.entries fv') {x x' : Nat}
+    (hx : fv.lookup e.ident = some x) (hx' : fv'.lookup e.ident = some x') (hne : x ≠ x') :
+    k &&& m' ≠ k' &&& m ∧ ¬ Matches k k' m' ∧ ¬ Matches k' k m :=
+  orthogonal_lemma (reachable_inv h).1.disjoint hfit hfit' hk hm hk' hm' he he' hx hx' hne
+
 /-! non-vacuity: a reachable state with two scopes, after assignment -/
 example : ∃ st, Reachable 8 st ∧ st.entries.length = 1 ∧ allFixedB st.entries = true := by
   refine ⟨_, Reachable.assign (Reachable.add (fv := []) (ident := "a") (length := some 3) (startAt := none)
     (tags := []) Reachable.init rfl), ?_, ?_⟩ <;> decide
+
+/-- non-vacuity of the key theorems: a 3-bit field `a` placed behind an explicit 2-bit field `b`; the instance a=5, b=2
+has key 0b10110 and mask 0b11111, and its values fit -/
+example : ∃ st fv, Reachable 8 st ∧ getValue st.entries fv none none = .ok 22 ∧ getMask st.entries fv none none = .ok 31 ∧
+    ValuesFit st.entries fv := by
+  refine ⟨_, [("a", 5), ("b", 2)], Reachable.assign (Reachable.add (fv := []) (ident := "b") (length := some 2)
+    (startAt := some 0) (tags := []) (Reachable.add (fv := []) (ident := "a") (length := some 3) (startAt := none)
+    (tags := ["t"]) Reachable.init rfl) rfl), by rfl, by rfl, ?_⟩
+  intro e he x l hx hl
+  have : e ∈ [(⟨[], "a", ⟨some 3, some 2, ["t"], 1⟩⟩ : Entry), ⟨[], "b", ⟨some 2, some 0, [], 1⟩⟩] := by
+    have hd : enabledFields (assignFieldsP ⟨8, [⟨[], "a", ⟨some 3, none, ["t"], 1⟩⟩, ⟨[], "b", ⟨some 2, some 0, [], 1⟩⟩]⟩).1.entries
+        [("a", 5), ("b", 2)] = [⟨[], "a", ⟨some 3, some 2, ["t"], 1⟩⟩, ⟨[], "b", ⟨some 2, some 0, [], 1⟩⟩] := by decide
+    exact hd ▸ he
+  simp only [List.mem_cons, List.mem_nil_iff, or_false] at this
+  rcases this with rfl | rfl
+  · simp [List.lookup] at hx hl; subst hx hl; decide
+  · simp [List.lookup] at hx hl; subst hx hl; decide
 
 end Rig.C08
